@@ -15,6 +15,7 @@ func TestMain(m *testing.M) {
 		"C12sio":   C12sio,
 		"C05sio":   C05sio,
 		"C10sio":   C10sio,
+		"C18sio":   C18sio,
 		"C15":      C15,
 		"C13sio":   C13sio,
 		"C09sio":   C09sio,
